@@ -19,6 +19,7 @@ RULE = ("deterministic_choice(id, population, weights / cum_weights) with ids = 
         "chi-square (1e-9) against the weights. Non-trivial = n>=2 with >=2 positive weights, or a malformed combination; "
         "distinct by arguments.")
 RULE += (' Since rounds 6-7: unhashable population elements, weights as tuples, exact-boundary hash positions for weights vs cum_weights with float rounding error, the global random generator untouched by calls with an id.')
+RULE += (' Since rounds 14-15: malformed calls in every calling convention (weights positional, all by name, functools.partial, without an id); hand-written weight shapes.')
 ASSUMPTIONS = [
     "positive weights lie in [1e-9, 1e9] (the magnitudes the language can express, cf. C03), optionally scaled as a whole vector by 1e-280 .. 1e280, or are exactly 0: with subnormal "
     "totals such as 5e-324 the product u*total rounds onto the total itself - a limit of double arithmetic that "
